@@ -129,42 +129,36 @@ class Prover:
     def assume_ne(self, a, b):
         self.neqs.append(a - b)
 
+    @staticmethod
+    def _infeasible(cons):
+        """Rational infeasibility of {c >= 0 for c in cons} by Fourier-Motzkin elimination (exact)."""
+        cons = list(cons)
+        atoms = sorted(set().union(*[c.atoms() for c in cons]), key=str) if cons else []
+        for a in atoms:
+            pos, neg, rest = [], [], []
+            for c in cons:
+                k = c.co.get(a, 0)
+                (pos if k > 0 else neg if k < 0 else rest).append(c)
+            new = rest
+            for p in pos:
+                for n in neg:
+                    kp, kn = p.co[a], -n.co[a]
+                    comb = p.scale(kn) + n.scale(kp)
+                    comb.co.pop(a, None)
+                    new.append(comb)
+            # drop duplicates to keep the system small
+            seen = {}
+            for c in new:
+                seen[c.key()] = c
+            cons = list(seen.values())
+            if len(cons) > 4000:
+                return False    # give up: treated as "not proved"
+        return any(c.c < 0 for c in cons if c.is_const())
+
     def _farkas(self, target, hyps):
-        """Is target >= 0 entailed by hyps (all >= 0)?"""
-        if target.is_const():
-            if target.c >= 0:
-                return True
-        atoms = sorted(set().union(target.atoms(), *[h.atoms() for h in hyps]), key=str)
-        n = len(atoms)
-        # try subsets of size 0..n
-        for k in range(0, min(n, len(hyps)) + 1):
-            for sub in combinations(range(len(hyps)), k):
-                hs = [hyps[i] for i in sub]
-                # need: for each atom, sum l_i * h_i[atom] = target[atom]
-                if k == 0:
-                    if all(target.co.get(a, 0) == 0 for a in atoms) and target.c >= 0:
-                        return True
-                    continue
-                # overdetermined (n eqs, k unknowns): pick k rows that make it square, verify the rest
-                rows = [[h.co.get(a, Fraction(0)) for h in hs] for a in atoms]
-                rhs = [target.co.get(a, Fraction(0)) for a in atoms]
-                sol = None
-                for rsel in combinations(range(n), k):
-                    s = _solve([rows[r] for r in rsel], [rhs[r] for r in rsel])
-                    if s is not None:
-                        sol = s
-                        break
-                if sol is None:
-                    continue
-                if any(l < 0 for l in sol):
-                    continue
-                ok = all(sum(l * rows[r][j] for j, l in enumerate(sol)) == rhs[r] for r in range(n))
-                if not ok:
-                    continue
-                const = target.c - sum(l * h.c for l, h in zip(sol, hs))
-                if const >= 0:
-                    return True
-        return False
+        """Is target >= 0 entailed by hyps (all >= 0) over the integers?  Sound: checks that
+        hyps together with target <= -1 have no rational solution."""
+        return self._infeasible(list(hyps) + [(-target) - 1])
 
     def _branches(self):
         """Expand disequalities into the 2^k systems (k is tiny)."""
